@@ -216,4 +216,13 @@ def traceText (evs : List Ev) (errText : Nat → Str) (rootError : Nat) (width :
   let fs := replay evs
   String.ofList (formatTrace fs errText rootError width (fs.size + 2) 1 0 none true)
 
+/-- what `GlomError.__str__` puts before the trace -/
+def msgHeader : Str :=
+  "error raised while processing, details below.\n Target-spec trace (most recent last):\n".toList
+
+/-- `GlomError.__str__` of a finalized error, up to the Python traceback lines: the header, the
+    trace rendered at the default width, a newline (the traceback lines `_tb_lines` follow) -/
+def messageHead (evs : List Ev) (errText : Nat → Str) (rootError : Nat) (width : Nat) : Str :=
+  msgHeader ++ (traceText evs errText rootError width).toList ++ ['\n']
+
 end Glom.C05
